@@ -156,6 +156,22 @@ CHECKS = {
             "compared with emulation over n, alignment and value tables.",
             "GNU as feature gating is the ISA reference; 32-bit code is classified, not run",
             "DESIGN.md 4/C11", True),
+    "C04": ("xcgen+xcdrv", "exploration",
+            "bounded exhaustive enumeration of programs x C forms x gcc optimisation levels x inputs; generated C compiled and called through its prototype, compared with emulation; emulator regeneration diff",
+            "Every program of levels L1, L5 and the corpus (thorough: + L2/L3 shards) goes through orcc; the Orc-free bare body (-DDISABLE_ORC) "
+            "at -O0 and -O2 and the executor-based backup body (ORC_CODE=backup) are called through the generated prototype over n, m, strides, "
+            "parameter domains (int/float/int64/double) and value tables and must equal orc_executor_emulate byte for byte (NaN payloads aside); "
+            "tools/generate-emulation must reproduce orc/orcemulateopcodes.{c,h} exactly.",
+            "gcc 12 x86-64 is the C compiler; emulation is the oracle",
+            "DESIGN.md 4/C04", True),
+    "C07": ("xcgen+xcdrv+xmemcpy", "exploration",
+            "bounded exhaustive enumeration of .orc sources x orcc option sets x build/run modes x inputs; every generated function called through its prototype and compared with emulation; orc_memcpy/orc_memset over all lengths x alignments",
+            "Corpus files and single-opcode programs x orcc {default, eager init, eager+lazy, no-backup, compat 0.4.11, compat 0.4.15, inline} x "
+            "{-DDISABLE_ORC, JIT, ORC_CODE=backup, ORC_CODE=emulate}: orcc must succeed, gcc must compile implementation and header, and each "
+            "function called through its prototype (strides, int/float/int64/double parameters, accumulator out-pointers) equals emulation; "
+            "orc_memcpy/orc_memset equal memcpy/memset for every length 0..1100 (thorough 4200) x offsets.",
+            "gcc 12 -O2; JIT float comparison uses C18's cross-path tolerance; --test output not driven",
+            "DESIGN.md 4/C07", True),
 }
 
 NOT_YET = {}
@@ -196,6 +212,12 @@ def main():
             "add_only": True,
         },
         "engines": [
+            {"name": "xcgen", "path": "engines/xcgen.c", "serves_properties": ["C04", "C07"],
+             "kind_free_text": "emits .orc text of an enumerated program shard and C thunks calling each orcc-generated function through its prototype"},
+            {"name": "xcdrv", "path": "engines/xcdrv.c", "serves_properties": ["C04", "C07"],
+             "kind_free_text": "driver linked with the gcc-compiled orcc output: enumerated inputs through the C prototype vs orc_executor_emulate (lib/vcgen.py runs orcc and gcc)"},
+            {"name": "xmemcpy", "path": "engines/xmemcpy.c", "serves_properties": ["C07"],
+             "kind_free_text": "orc_memcpy/orc_memset vs memcpy/memset over every length x destination/source offset, library wrappers and Orc-free bodies"},
             {"name": "xasm", "path": "engines/xasm.c", "serves_properties": ["C11", "C12"],
              "kind_free_text": "program x flag-vector enumerator dumping listing + code bytes (C12) or distinct instruction forms per flag vector (C11); lib/vasm.py drives GNU as/objdump"},
             {"name": "xcomp", "path": "engines/xcomp.c", "serves_properties": ["C05"],
